@@ -431,7 +431,7 @@ def cli_matrix(tier):
                     out['report'] = histsim.canon_report(f.read(), d)
             if c['out'] == 'rel_symlink':
                 tgt = os.path.join(cwd, 'runs', 'r1.out')
-                out['link_ok'] = os.path.islink(full) and os.path.isfile(tgt) and histsim._file_sha(tgt) == histsim._file_sha(full)
+                out['link_ok'] = os.path.islink(full) and os.path.isfile(tgt) and open(tgt, 'rb').read() == open(full, 'rb').read()
             return out
 
         with ThreadPoolExecutor(max_workers=D.jobs()) as ex:
